@@ -133,6 +133,9 @@ type sessionCase struct {
 	// the constructor: "" NewSession with a negotiator, "client" / "server" the
 	// convenience constructors NewClientSession / NewServerSession
 	ctor string
+	// position of the STARTTLS feature in the configured list (0 first, as in
+	// the documentation's examples; 1 between SASL and bind; 2 last)
+	tlsPos int
 	// the peer's first header on the protected stream: "" complete, "noid" /
 	// "noversion": lacks what its clear-text header declared
 	protHdr string
@@ -162,7 +165,7 @@ func (tc tcase) String() string {
 	var sb strings.Builder
 	fmt.Fprintf(&sb, "StartTLS(cfg nil=%v) reused for %d sessions (one Negotiator value for all: %v):", tc.nilCfg, len(tc.sessions), tc.sharedNeg)
 	for i, s := range tc.sessions {
-		fmt.Fprintf(&sb, "\n  session %d: domain=%s first-list=%s answer=%s after-proceed=%s honest-after-tls=%v tee=%v extra-double=%v clear-header-to=%q location=%q first-protected-header=%q transport-wrapper-with-ConnectionState-method=%v client-mechanisms=%q constructor=%q", i, s.domain, s.first, s.answer, s.after, s.honest, s.tee, s.extraDbl, s.hdrTo, s.location, s.protHdr, s.wrapped, s.mechs, s.ctor)
+		fmt.Fprintf(&sb, "\n  session %d: domain=%s first-list=%s answer=%s after-proceed=%s honest-after-tls=%v tee=%v extra-double=%v clear-header-to=%q location=%q first-protected-header=%q transport-wrapper-with-ConnectionState-method=%v client-mechanisms=%q constructor=%q position-of-STARTTLS-in-the-feature-list=%d", i, s.domain, s.first, s.answer, s.after, s.honest, s.tee, s.extraDbl, s.hdrTo, s.location, s.protHdr, s.wrapped, s.mechs, s.ctor, s.tlsPos)
 	}
 	return sb.String()
 }
@@ -209,6 +212,7 @@ func genCase(t *rapid.T) tcase {
 			mechs:    rapid.SampledFrom([]string{"", "", "", "scram", "scram+plain"}).Draw(t, "mechs"),
 		})
 		sc := &tc.sessions[len(tc.sessions)-1]
+		sc.tlsPos = rapid.SampledFrom([]int{0, 0, 1, 2}).Draw(t, "tlsPos")
 		if !sc.tee {
 			switch rapid.IntRange(0, 3).Draw(t, "ctor") {
 			case 0:
@@ -371,6 +375,12 @@ func runSessionNeg(sc sessionCase, feature xmpp.StreamFeature, forceTee *bool, s
 		saslMechs = []sasl.Mechanism{sasl.ScramSha1, sasl.Plain}
 	}
 	feats := []xmpp.StreamFeature{feature, xmpp.SASL("", "secret", saslMechs...), xmpp.BindResource()}
+	switch sc.tlsPos {
+	case 1:
+		feats[0], feats[1] = feats[1], feats[0]
+	case 2:
+		feats = []xmpp.StreamFeature{feats[1], feats[2], feats[0]}
+	}
 	if sc.extraDbl {
 		feats = append(feats, secureDouble())
 	}
